@@ -1,73 +1,69 @@
 (* C22 — per-step drive values are the interpolated Pulser samples; the amplitude is never negative.
    Only final statements; every proof is `exact <lemma>`.
-   [extract] is the model of emu_base/pulser_adapter.py:_extract_omega_delta_phi (Model/DriveSamples.v,
-   bit-exact with the real function at the PrimFloat instance, checked on every run) at the real-number
-   instance; it uses the PCHIP model of C20.  samples = Pulser's per-atom sample lists
-   (amp, det, phase) keyed by atom; qids = the register's atoms; tt = target times; md = duration.
-   grid md = [0, 1, .., md-1]; kept samples qids = the register atoms that some channel addresses.
-   STATUS: the model follows the source as it is today.  Two parts of the property are false of it and are
-   refuted below: only the LAST amplitude row is clamped (finding F-09) and columns exist only for
-   ADDRESSED atoms (finding F-05).  The positive statements that hold after the proposed fixes are already
-   proved for the switched model (extract_with true _ / extract_with _ true) and are listed in
-   proposed_fixes/C22_after_F05_F09.v. *)
+   [extract] is the model of emu_base/pulser_adapter.py:_extract_omega_delta_phi as PulserData.get_sequences
+   calls it (all_register_atoms=True) (Model/DriveSamples.v, bit-exact with the real function at the PrimFloat
+   instance, checked on every run) at the real-number instance; it uses the PCHIP model of C20.
+   samples = Pulser's per-atom sample lists (amp, det, phase) keyed by atom; qids = the register's atoms;
+   tt = target times; md = duration; grid md = [0, 1, .., md-1]; interp = C20 interpolation at a list of points.
+   History: before /repo 085d359 only the last amplitude row was clamped (F-09) and before 8603313 columns
+   existed only for addressed atoms (F-05); both variants are still refuted in Proofs/DriveProofs.v
+   (amp_nonneg_refuted, columns_refuted) and their witnesses are regression cases in corpus/C22.json. *)
 From Coq Require Import Reals ZArith List.
 From EV Require Import Base.Arith Model.Pchip Model.DriveSamples Proofs.PchipProofs Proofs.DriveProofs.
 Import ListNotations.
 Open Scope R_scope.
 
-(* Step midpoints: one per step, the mean of the step's two ends. *)
 Theorem C22_midpoints_spec : forall (tt : list R),
   length (midpoints R_arith tt) = pred (length tt) /\
   forall k, (S k < length tt)%nat -> nth k (midpoints R_arith tt) 0 = (nth k tt 0 + nth (S k) tt 0) / 2.
 Proof. intros tt. split; [exact (midpoints_length tt) | exact (midpoints_nth tt)]. Qed.
 
-(* Whenever the function returns: max_duration = tt[-1]; omega, delta, phi have one column per addressed
-   register atom, in register order; column j of delta and phi is the PCHIP interpolation (C20) of that
-   atom's samples on the 1 ns grid at every step midpoint; column j of omega is the same except that its
-   last entry is clamped at 0. *)
-Theorem C22_values_are_midpoint_interpolation : forall (samples : list (Z * sample_t R)) qids tt md om de ph,
+(* Whenever the function returns: omega, delta, phi have one column per REGISTER atom, in register order;
+   for an addressed atom delta and phi are the PCHIP interpolation (C20) of its samples at every step midpoint
+   and omega is max(that interpolation, 0); for an atom no channel addresses all three are 0;
+   every amplitude entry is >= 0. *)
+Theorem C22_drive_values_are_midpoint_interpolation : forall (samples : list (Z * sample_t R)) qids tt md om de ph,
   extract R_arith samples qids tt md = Ok (om, de, ph) ->
   IZR md = last tt 0 /\
-  length om = length (kept samples qids) /\ length de = length (kept samples qids) /\
-  length ph = length (kept samples qids) /\
-  forall j, (j < length (kept samples qids))%nat -> exists s,
-    lookup (nth j (kept samples qids) 0%Z) samples = Some s /\
-    nth j om [] = clamp_last R_arith (interp md (sel_amp s) (midpoints R_arith tt)) /\
-    nth j de [] = interp md (sel_det s) (midpoints R_arith tt) /\
-    nth j ph [] = interp md (sel_phase s) (midpoints R_arith tt).
-Proof. exact extract_spec. Qed.
+  length om = length qids /\ length de = length qids /\ length ph = length qids /\
+  Forall (Forall (fun v => 0 <= v)) om /\
+  forall j, (j < length qids)%nat ->
+    match lookup (nth j qids 0%Z) samples with
+    | Some s =>
+        nth j om [] = map (clamp0 R_arith) (interp md (sel_amp s) (midpoints R_arith tt)) /\
+        nth j de [] = interp md (sel_det s) (midpoints R_arith tt) /\
+        nth j ph [] = interp md (sel_phase s) (midpoints R_arith tt)
+    | None =>
+        nth j om [] = repeat 0 (length tt - 1) /\ nth j de [] = repeat 0 (length tt - 1) /\
+        nth j ph [] = repeat 0 (length tt - 1)
+    end.
+Proof. exact extract_fixed_spec. Qed.
 
-(* clamp_last changes nothing but the last entry, which becomes max(.,0). *)
-Theorem C22_clamp_last_spec : forall (l : list R),
-  length (clamp_last R_arith l) = length l /\
-  (forall k, (S k < length l)%nat -> nth k (clamp_last R_arith l) 0 = nth k l 0) /\
-  (l <> [] -> nth (length l - 1) (clamp_last R_arith l) 0 = clamp0 R_arith (nth (length l - 1) l 0)) /\
-  (forall v, 0 <= clamp0 R_arith v) /\ (forall v, 0 <= v -> clamp0 R_arith v = v).
-Proof.
-  intros l. split; [exact (clamp_last_length l)|]. split; [exact (clamp_last_nth l)|].
-  split; [exact (clamp_last_last l)|]. split; [exact clamp0_nonneg | exact clamp0_id].
-Qed.
+(* The amplitude is never negative: every entry of omega, every step (also after the last Pulser sample),
+   every register atom. *)
+Theorem C22_amplitude_nonnegative : forall (samples : list (Z * sample_t R)) qids tt md om de ph,
+  extract R_arith samples qids tt md = Ok (om, de, ph) -> Forall (Forall (fun v => 0 <= v)) om.
+Proof. exact (amp_nonneg_all_rows true). Qed.
 
-(* The last amplitude row is never negative (the clamp of the source). *)
-Theorem C22_amplitude_nonnegative_partial : forall (samples : list (Z * sample_t R)) qids tt md om de ph,
-  extract R_arith samples qids tt md = Ok (om, de, ph) -> (2 <= length tt)%nat ->
-  forall j, (j < length om)%nat -> 0 <= nth (length tt - 2) (nth j om []) 0.
-Proof. exact (amp_last_row_nonneg false). Qed.
+(* ... and this does not lean on the clamp inside the sampled range: for an atom with non-negative amplitude
+   samples, at every step whose midpoint lies in [0, md-1] the amplitude IS the PCHIP interpolation of the
+   samples (the clamp is inactive) and that interpolation is >= 0, by C20's min <= P <= max on each interval.
+   The clamp only acts on steps after the last sample (extrapolation). *)
+Theorem C22_amplitude_inside_range_is_interpolation :
+  forall (samples : list (Z * sample_t R)) qids tt md om de ph,
+  extract R_arith samples qids tt md = Ok (om, de, ph) ->
+  forall j s, (j < length qids)%nat -> lookup (nth j qids 0%Z) samples = Some s ->
+  Forall (fun v => 0 <= v) (sel_amp s) ->
+  forall k, (S k < length tt)%nat -> 0 <= nth k (midpoints R_arith tt) 0 <= IZR md - 1 ->
+  nth k (nth j om []) 0 = pchip_eval R_arith (grid md) (sel_amp s) (nth k (midpoints R_arith tt) 0) /\
+  0 <= pchip_eval R_arith (grid md) (sel_amp s) (nth k (midpoints R_arith tt) 0).
+Proof. exact amp_inside_is_interpolation. Qed.
 
-(* The function does return on well-formed input (premises satisfiable). *)
+(* the function does return on well-formed input (premises satisfiable) *)
 Example C22_extract_runs : exists om de ph,
   extract R_arith [(0%Z, ([5; 3; 1], [0; 0; 0], [0; 0; 0]))] [0%Z] [0; 5 / 2; 11 / 4; 3] 3%Z = Ok (om, de, ph).
-Proof. exact extract_runs_example. Qed.
+Proof. exact fixed_runs_example. Qed.
 
-(* REFUTED (finding F-09): non-negative samples 5,3,1 at 0,1,2 ns (duration 3), steps ending at 5/2, 11/4, 3:
-   the amplitude of the step before the last is the extrapolated value P(21/8) = -1/4 < 0. *)
-Theorem C22_amplitude_nonnegative_refuted : exists (samples : list (Z * sample_t R)) qids tt md om de ph,
-  Forall (fun e => Forall (fun v => 0 <= v) (sel_amp (snd e))) samples /\
-  extract R_arith samples qids tt md = Ok (om, de, ph) /\
-  exists j k, (j < length om)%nat /\ (k < length tt - 1)%nat /\ nth k (nth j om []) 0 < 0.
-Proof. exact amp_nonneg_refuted. Qed.
-
-(* REFUTED (finding F-05): a 3-atom register where only atom 1 is addressed yields ONE column, not three. *)
-Theorem C22_columns_are_register_atoms_refuted : exists (samples : list (Z * sample_t R)) qids tt md om de ph,
-  extract R_arith samples qids tt md = Ok (om, de, ph) /\ length qids = 3%nat /\ length om = 1%nat.
-Proof. exact columns_refuted. Qed.
+(* the clamp is max(.,0): it changes nothing where the interpolation is already >= 0 *)
+Theorem C22_clamp_spec : (forall v, 0 <= clamp0 R_arith v) /\ (forall v, 0 <= v -> clamp0 R_arith v = v).
+Proof. split; [exact clamp0_nonneg | exact clamp0_id]. Qed.
